@@ -443,5 +443,9 @@ class Eval:
     def e_ListComp(self, n):
         return self.ex.listcomp(self, n)
 
+    def e_SetComp(self, n):
+        from .builtins import do_setcomp
+        return do_setcomp(self.ex, self, n)
+
     def e_Lambda(self, n):
         raise Unsupported("lambda")
